@@ -31,6 +31,8 @@ type Unit struct {
 	Tag     string   `json:"tag"` // which layer generated it
 	// Pipelined: all batches are encoded first, then decoded in order.
 	Pipelined bool `json:"pipelined,omitempty"`
+	// Fault: one injected allocation failure inside the IPC write of a record (C12 batch-id clause)
+	Fault *ProdFault `json:"fault,omitempty"`
 }
 
 type Finding struct {
@@ -61,7 +63,11 @@ func unitKey(u Unit, upto int) string {
 	for i := 0; i <= upto && i < len(u.History); i++ {
 		parts = append(parts, u.History[i].String())
 	}
-	return u.Opts.String() + " :: " + strings.Join(parts, " -> ")
+	f := ""
+	if u.Fault != nil {
+		f = fmt.Sprintf(" [allocation refused while writing record %d of batch %d]", u.Fault.Record, u.Fault.Step)
+	}
+	return u.Opts.String() + f + " :: " + strings.Join(parts, " -> ")
 }
 
 // msgClass strips the variable part of a message so that one defect seen
@@ -184,7 +190,7 @@ func runUnits(units []Unit, shard, nshard int) *WorkerOut {
 		}
 		out.Units++
 		out.Layers[u.Tag]++
-		st := NewStream(u.Opts, u.Mon)
+		st := NewStreamFault(u.Opts, u.Mon, u.Fault)
 		st.pipelined = u.Pipelined
 		hist := u.History
 		if u.Pipelined {
